@@ -13,7 +13,7 @@
     KS    = {"provider":s,"users":{authid:{"role":s|null,"keys":{method:hex},"nilkeys":[method..],
              "salt":s,"keylen":n,"iters":n}},
              "bypass":null|{"already":[authid..],"onWelcomeErr":b,"onWelcomeSet":{k:v..}}}
-    HS    = {"local":b,"transport":{..},"blocked":b,"realmClosing":b,
+    HS    = {"local":b,"transport":{..},"blocked":b,"realmClosing":b,"routerClosed":b,
              "arrivals":[{"d":ms,"m":["hello",realm,{details}]|["auth",sig,{extra}]|["other",code]|["close"]}..],
              "oracle":{"sid":n,"authidRand":n,"keyNonce":s|null,"keyNow":s,"chalNonce":s|null,"now":s,
                        "csChallenge":hex|null,"b64":{sig:hex|null},"hexd":{sig:hex|null},
@@ -198,7 +198,7 @@ def toOracle (j : Json) : Oracle :=
 def whyStr : Why → String
   | .helloTimeout => "helloTimeout" | .helloClosed => "helloClosed"
   | .notHello t => s!"notHello:{t}"
-  | .emptyRealm => "emptyRealm" | .routerClosing => "routerClosing" | .noSuchRealm => "noSuchRealm"
+  | .emptyRealm => "emptyRealm" | .routerClosed => "routerClosed" | .routerClosing => "routerClosing" | .noSuchRealm => "noSuchRealm"
   | .realmCreateFailed => "realmCreateFailed" | .noRoles => "noRoles"
   | .noAuthSupplied => "noAuthSupplied" | .noAuthenticator => "noAuthenticator"
   | .missingAuthid => "missingAuthid" | .authRoleError => "authRoleError" | .keyError => "keyError"
@@ -250,6 +250,7 @@ def runScenario (j : Json) : Json :=
         challengeBlocked := getBool h "blocked", routerRoles := .str "$roles",
         o := toOracle ((h.getObjVal? "oracle").toOption.getD Json.null) }
     let closingNow := getBool h "realmClosing"
+    let rt : RouterCfg := if getBool h "routerClosed" then { rt with closed := true } else rt
     let rtNow : RouterCfg :=
       if closingNow then
         { rt with realms := rt.realms.map (fun r => { r with closing := true }),
